@@ -1268,6 +1268,23 @@ func (c *cluster) unprotectedCompleteCurrentJob(state string) error {
 	return nil
 }
 
+// abortCurrentJob aborts the running resizeJob on request (API.ResizeAbort).
+// It hands the result to handleNodeAction, which is waiting for the job to
+// end: handleNodeAction completes the job as aborted and listenForJoins then
+// returns the cluster to state NORMAL (or starts the next queued action).
+func (c *cluster) abortCurrentJob() error {
+	c.mu.RLock()
+	defer c.mu.RUnlock()
+	if !c.unprotectedIsCoordinator() {
+		return ErrNodeNotCoordinator
+	}
+	if c.currentJob == nil {
+		return ErrResizeNotRunning
+	}
+	c.currentJob.sendResult(resizeJobStateAborted)
+	return nil
+}
+
 // followResizeInstruction is run by any node that receives a ResizeInstruction.
 func (c *cluster) followResizeInstruction(instr *ResizeInstruction) error {
 	c.logger.Printf("follow resize instruction on %s", c.Node.ID)
